@@ -7,7 +7,7 @@ FINISH = dict(level="fault_enumeration",
                    "json_tokener_parse, 10 constructors, object add with table growth / replace / constant key, array "
                    "add/put/insert with growth, set_string growth of an inline string and re-growth / shrink / equal-length set of an already grown one, deep copy, 13 serializations, pointer set/get incl. "
                    "printf variants, a 6-operation patch and each operation alone) is failed in turn (thorough: plus a "
-                   "random second failure), on the fixed set-up and again after each of H seeded pseudo-random histories of ordinary operations on the caller-owned objects (quick H=5, thorough H=39); a case is non-trivial when the failing request was reached; distinct = "
+                   "random second failure), on the fixed set-up and again after each of H seeded pseudo-random histories of ordinary operations on the caller-owned objects (quick H=5, thorough H=149); a case is non-trivial when the failing request was reached; distinct = "
                    "distinct (workload, variant, history, k, k2); TLC validates each event against the Faults overlay; the "
                    "micro-step rollback models (Faults.tla) are model-checked for every failing position")
 MUTS = ["objadd_key_leak", "attach_leak"]
@@ -37,7 +37,7 @@ def run(ck):
     ck.mc("Faults", "C08_mc.cfg", workers=4, timeout=600)
     for m in MUTS:
         ck.mc_must_fail("Faults", "C08_asfound_%s.cfg" % m, workers=4, timeout=600)
-    H = 40 if thorough else 6
+    H = 150 if thorough else 6
     exe = vlib.build("san", vlib.harness_sources(), "vh")
     tp = os.path.join(ck.dir, "v.ndjson")
     deaths = vlib.run_executions(exe, lambda st: ["c08", "sweep", 0, 99, 1 if thorough else 0, 0, H], 1, tp, timeout=1800)
